@@ -785,14 +785,35 @@ def m_thread_ctor(I, st, fr, n, this, args, an):
     return [(st, VOID)]
 
 
+def _thr_loc(this):
+    if this is not None and this[0] == 'p':
+        return (this[1], this[2] + ('$joinable',))
+    return None
+
+
 def m_thread_join(I, st, fr, n, this, args, an):
     I.emit('join', st, node=n, this=this, fr=fr)
+    l = _thr_loc(this)
+    if l is not None:
+        st.mem[l] = C(0)
     return [(st, VOID)]
 
 
 def m_thread_assign(I, st, fr, n, this, args, an):
     I.emit('thread_assign', st, node=n, this=this, fr=fr)
+    l = _thr_loc(this)
+    if l is not None:
+        st.mem[l] = C(1)        # the slot now holds a started thread (move-assigned from a freshly constructed one)
     return [(st, this)]
+
+
+def m_thread_joinable(I, st, fr, n, this, args, an):
+    # a default-constructed std::thread is not joinable; one that was assigned a started thread is, until joined
+    l = _thr_loc(this)
+    v = st.mem.get(l) if l is not None else None
+    if v is None and l is not None and isinstance(l[1][-2] if len(l[1]) >= 2 else None, int):
+        v = C(0)
+    return [(st, v if v is not None else R(0, 1))]
 
 
 def m_function_call(I, st, fr, n, this, args, an):
@@ -858,7 +879,7 @@ STD_MODELS = {
     'std::condition_variable::wait': m_cv_wait,
     'std::condition_variable::notify_all': m_cv_notify_all,
     'std::condition_variable::notify_one': m_cv_notify_one,
-    'std::thread::thread': m_thread_ctor, 'std::thread::join': m_thread_join, 'std::thread::operator=': m_thread_assign,
+    'std::thread::thread': m_thread_ctor, 'std::thread::join': m_thread_join, 'std::thread::operator=': m_thread_assign, 'std::thread::joinable': m_thread_joinable,
     'std::function::operator()': m_function_call, 'std::function::function': m_void,
     'std::ref': m_ref, 'std::bind': m_bind,
     'std::filesystem::file_size': m_file_size,
